@@ -372,6 +372,12 @@ func checkC15(c *Ctx, r *Report) {
 
 	flattenedKeysRule(c, r)
 
+	rootTestRule(c, r)
+
+	bothPartsRule(c, r)
+
+	flattenByMeaningRule(c, r)
+
 	r.Rule("R15d", "every implementation of value.SetContext stores its argument into storage reachable from the receiver on every path", 2)
 	setContextRule(c, r)
 
@@ -1343,6 +1349,146 @@ func flattenedKeysRule(c *Ctx, r *Report) {
 	if n == 0 {
 		r.add("R15i", "ucfg.FlattenedKeys", "key is a path from the root", "-", Undecided, true, "no key appended in the FlattenedKeys family")
 	}
+}
+
+// rootTestRule (R15j): the root of a tree is the node without a parent. context.path may return early (the path so
+// far ends here) only under a test of ctx.parent — never because a name is empty: a setting can be named "", and
+// the path of everything below it must not start over.
+func rootTestRule(c *Ctx, r *Report) {
+	r.Rule("R15j", "every return of context.path lies under a nil test of a parent (its own or its parent's): an empty name alone never ends the path", 2)
+	ctxT := c.Named("", "context")
+	fn := c.MethodImpl(types.NewPointer(ctxT), "path")
+	if fn == nil {
+		r.add("R15j", "ucfg.context.path", "root by parent", "-", Undecided, true, "context.path not found")
+		return
+	}
+	fn = declared(c, fn)
+	for _, ret := range Returns(fn) {
+		under := false
+		for _, cd := range ExpandConds(DomConds(ret.Block())) {
+			if tv, _, ok := nilTest(cd.V); ok {
+				for _, s := range append(Sources(tv), tv) {
+					if l, isL := s.(*ssa.UnOp); isL {
+						if _, f, okF := FieldOf(l.X); okF && f == "parent" {
+							under = true
+						}
+					}
+					if _, f, okF := FieldOf(s); okF && f == "parent" {
+						under = true
+					}
+				}
+			}
+		}
+		// the last return (the general case: parent's path + separator + name) needs no test of its own when every
+		// other way out has one; it is the block that calls path recursively
+		recursive := false
+		for _, in := range ret.Block().Instrs {
+			if call, isCall := in.(*ssa.Call); isCall && call.Call.StaticCallee() == fn {
+				recursive = true
+			}
+		}
+		r.Check(under || recursive, "R15j", c.FnName(fn), "root by parent", c.Pos(ret.Pos()), "under a test of ctx.parent (or the recursive case)",
+			"context.path ends the path without looking at the parent (an empty name is taken for the root): below a setting named \"\" every path starts over — FlattenedKeys reports a..x as x, diff and error messages name another setting")
+	}
+}
+
+// bothPartsRule (R15k): a node has a dictionary part and a list part, and can have both (a top-level {"0": x, "b": y};
+// a dictionary emptied by Remove that got a list entry afterwards). flattenedKeys walks both: the loop over the list
+// part is reachable also when the dictionary part was walked — the two are not alternatives.
+func bothPartsRule(c *Ctx, r *Report) {
+	r.Rule("R15k", "flattenedKeys walks the dictionary part and the list part of a node, not one or the other", 1)
+	fk := c.Method("", "Config", "flattenedKeys")
+	var dictLoop, arrLoop *ssa.BasicBlock
+	for _, ci := range CallsIn(fk, false) {
+		g := ci.Common().StaticCallee()
+		if g == nil || recvName(g) != "fields" {
+			continue
+		}
+		// the block in which the part is fetched for the loop (not the IsDict/IsArray tests, which are methods of Config)
+		switch g.Name() {
+		case "dict":
+			dictLoop = ci.(ssa.Instruction).Block()
+		case "array":
+			arrLoop = ci.(ssa.Instruction).Block()
+		}
+	}
+	if dictLoop == nil || arrLoop == nil {
+		r.add("R15k", c.FnName(fk), "both parts walked", c.Pos(fk.Pos()), Undecided, true, "flattenedKeys does not fetch both parts of the node")
+		return
+	}
+	ok := dictLoop == arrLoop || reachableFromEdge(nil, dictLoop, arrLoop, nil) || reachableFromEdge(nil, arrLoop, dictLoop, nil)
+	// … and neither part is walked only on condition of what the other part is
+	for _, blk := range []*ssa.BasicBlock{dictLoop, arrLoop} {
+		for _, cd := range ExpandConds(DomConds(blk)) {
+			v := cd.V
+			for {
+				u, isU := v.(*ssa.UnOp)
+				if !isU || u.Op != token.NOT {
+					break
+				}
+				v = u.X
+			}
+			for _, s := range append(Sources(v), v) {
+				if call, isCall := s.(*ssa.Call); isCall {
+					switch calledName(call) {
+					case "IsDict", "IsArray", "dict", "array":
+						ok = false
+					}
+				}
+				if bo, isB := s.(*ssa.BinOp); isB {
+					for _, o := range []ssa.Value{bo.X, bo.Y} {
+						if call, isCall := o.(*ssa.Call); isCall {
+							switch calledName(call) {
+							case "IsDict", "IsArray", "dict", "array":
+								ok = false
+							}
+						}
+					}
+				}
+			}
+		}
+	}
+	r.Check(ok, "R15k", c.FnName(fk), "both parts walked", c.Pos(fk.Pos()), "the list part is reached after the dictionary part",
+		"flattenedKeys walks either the dictionary part or the list part of a node: for a node with both (or a dictionary emptied by Remove that has list entries) the list entries are missing from FlattenedKeys, and diff.CompareConfigs reports them as added against an equal config")
+}
+
+// flattenByMeaningRule (R15l): whether a value is a leaf or something to descend into is asked of the value
+// (toConfig), not read off its Go type: a null answers toConfig with an empty config and contributes no key, a
+// reference answers with what it points to. A classification by node type in the FlattenedKeys family has to repeat
+// every node type's meaning by hand — the one it forgets (nulls; list padding) turns up as a key.
+func flattenByMeaningRule(c *Ctx, r *Report) {
+	r.Rule("R15l", "the FlattenedKeys family classifies values by toConfig, with no type assertion or type switch on the node types", 1)
+	nodeT := map[string]bool{"cfgSub": true, "cfgDynamic": true, "cfgNil": true, "cfgBool": true, "cfgInt": true, "cfgUint": true, "cfgFloat": true, "cfgString": true, "cfgPrimitive": true}
+	var fam []*ssa.Function
+	for _, n := range []string{"FlattenedKeys", "flattenedKeys"} {
+		if f := c.Method("", "Config", n); f != nil {
+			fam = append(fam, WithAnon(f)...)
+		}
+	}
+	if f := c.TryFunc("", "appendFlattenedKeys"); f != nil {
+		fam = append(fam, WithAnon(f)...)
+	}
+	bad, asks := "", 0
+	for _, fn := range fam {
+		Instrs(fn, false, func(in ssa.Instruction) {
+			switch x := in.(type) {
+			case *ssa.TypeAssert:
+				t := x.AssertedType
+				if pt, ok := t.(*types.Pointer); ok {
+					t = pt.Elem()
+				}
+				if nt, ok := t.(*types.Named); ok && nodeT[nt.Obj().Name()] && isNamed(x.X.Type(), modPath, "value") {
+					bad = "assertion to " + nt.Obj().Name() + " at " + c.Pos(x.Pos())
+				}
+			case *ssa.Call:
+				if x.Call.IsInvoke() && x.Call.Method.Name() == "toConfig" {
+					asks++
+				}
+			}
+		})
+	}
+	r.Check(bad == "" && asks > 0, "R15l", "ucfg.FlattenedKeys family", "leaf or subtree by toConfig", "-", fmt.Sprintf("%d toConfig call(s), no test of the node type", asks),
+		"the FlattenedKeys family decides by the Go type of a node ("+bad+") what is a leaf: a node type whose meaning the hand-written classification does not repeat (a null, the padding of a list written behind its end) is reported as a key, and diff.CompareConfigs sees a change between equal configs")
 }
 
 // madeHere: the call returns a value that did not exist before (a constructor, a copy, a normalised input).
